@@ -35,6 +35,48 @@ CHECKS = {
     },
 }
 
+_PB = ("Level 'other' = proved obligations plus named bounded stand-ins (never counted as proved). ")
+_MORE = {
+    "C01": ("Round trip {INV & documented precondition} A; A.inverse(); inverse-of-inverse restores nodes, edges, registered feature values, segmentation and both "
+            "lookups, proved for every primitive (incl. UpdateNodeSeg, with and without segmentation) with the real inverse() methods; 'invertible here' proved at "
+            "every primitive call site of the six node/edge user actions; actions list records the applied sub-actions in order; real ActionGroup.inverse proved to "
+            "return the reversed list of inverses for every length; composition by Lean lemma M4. Bounded: relabel walk body; UserUpdateSegmentation.",
+            "contract-based deductive verification (AST->VC, z3/cvc5) + Lean lemma M4 + bounded stand-in (walk)"),
+    "C04": ("Local clauses T1/T2/has-id preserved by all six node/edge user actions on a symbolic forest; walk preconditions P1/P2 proved at every call site; exact "
+            "rewrite 'ids change exactly below the relabelled node'; local=>global by Lean M2. Bounded: walk body and bulk assignment on all forests <= 5 (6) nodes.",
+            "contract-based deductive verification (inductive invariant, ghost descendant closure) + Lean M2/M2'/M3 + bounded stand-ins"),
+    "C05": ("Local clauses L1/L2/has-id/max preserved by all six node/edge user actions (after the repair of three genuine defects); local<=>global by Lean M1. "
+            "Bounded: walk body and bulk assignment.", "contract-based deductive verification (inductive invariant) + Lean M1 + bounded stand-ins"),
+    "C06": ("B1 (lookup = nodes carrying the id, as a bag) and B2 (maxima dominate => fresh ids) preserved by every user action; AddNode/DeleteNode bookkeeping proved with "
+            "the real helpers inlined. Bounded: bodies of get_track_neighbors/has_track_id_at_time and the walk's bookkeeping (all forests <= 5 nodes, every order of the lookup lists).",
+            "contract-based deductive verification (representation invariant of the lookups) + bounded stand-ins for the query bodies"),
+    "C07": ("S1/S2 preserved by every primitive (symbolic label video) and the six node/edge user actions; pixel-exact write clauses; inverse restores the array bit for bit. "
+            "Bounded: paint-driven UserUpdateSegmentation by seeded random strokes.", "contract-based deductive verification over a symbolic label array + bounded stand-in (paint strokes)"),
+    "C08": ("Invariant R (stored = RP(attr name, node's mask in its own frame, scale[1:])) for every active key preserved by every primitive and six user actions; "
+            "RegionpropsAnnotator.update proved to recompute exactly the active keys of exactly the action's node. Numeric formulas and bulk path: assumed skimage model + native oracle.",
+            "contract-based deductive verification with uninterpreted measurements (congruence schema) + native numeric oracle"),
+    "C09": ("Invariant Q (stored iou = IOU(mask of source in its frame, mask of target in its frame)) preserved by every primitive and six user actions; EdgeAnnotator.update "
+            "proved for AddEdge and UpdateNodeSeg. Bulk path and numeric value: native oracle.", "contract-based deductive verification with uninterpreted IoU + native numeric oracle"),
+    "C10": ("Protection of time and every annotator key by UpdateNodeAttrs (raises-iff, enabled or not) and 'only active keys are written' by the annotators' update() proved. "
+            "enable/disable/registry/KeyError-unchanged: bounded (seeded random interleavings).", "contract-based deductive verification (raises-iff, frame on active keys) + bounded stand-in"),
+    "C12": ("BOUNDED STAND-IN ONLY, DataFrame/CSV path only: exhaustive small tables incl. malformed variants vs the source table. GEFF path not covered.", "bounded stand-in (no obligation discharged)"),
+    "C13": ("BOUNDED STAND-IN ONLY: every 2x3 label array x every <=3 detections x id assignments incl. chained/permuted maps and id 0.", "bounded stand-in (no obligation discharged)"),
+    "C15": ("BOUNDED STAND-IN ONLY: sampled forests/subsets, CSV and GEFF, with/without segmentation, vs ancestor closure (minimality by Lean M5 on the spec side).", "bounded stand-in (no obligation discharged)"),
+    "C16": ("Frame condition 'modifies nothing reachable from the tracks' decided by a may-alias analysis of the real AST of the exporters, savers and 27 queries (35 obligations), "
+            "third-party callees assumed read-only; plus deep-snapshot bounded check.", "static frame analysis of the real AST (may-alias) + bounded stand-in"),
+    "C17": ("BOUNDED STAND-IN ONLY: sampled column lists from a 28-word vocabulary of similar names, ndim None/3/4, node and edge maps.", "bounded stand-in (no obligation discharged)"),
+    "C18": ("BOUNDED STAND-IN ONLY: every placement of <=4 points in 4 frames (all gap patterns) and random label videos vs brute force.", "bounded stand-in (no obligation discharged)"),
+    "C19": ("ensure_unique_labels proved for every number of frames/pixels by a loop invariant over the real loop (both multiseg settings); relabel_segmentation_with_track_id: bounded.",
+            "contract-based deductive verification (loop invariant over a symbolic label array) + bounded stand-in"),
+}
+for _k, (_t, _tech) in _MORE.items():
+    CHECKS[_k] = {"category": "other", "text": _PB + _t, "note": _PROOF_NOTE + "Bounded stand-ins and assumed contracts are listed in evidence.coverage.bounded_stand_ins / trusted_base.",
+                  "technique": _tech}
+CHECKS["C03"]["category"] = "other"
+CHECKS["C03"]["text"] = _PB + CHECKS["C03"]["text"] + " Bounded: bodies of the two track-neighbour queries whose contracts the proofs use."
+for _k in ("C02", "C11", "C20"):
+    CHECKS[_k]["note"] = CHECKS[_k]["note"].replace("UserUpdateSegmentation not yet under contract.", "UserUpdateSegmentation is not under contract (see C07 bounded stand-in).")
+
 NOT_APPLICABLE = {
     "C14": "export followed by import is decided by third-party serialisers (pandas.to_csv/read_csv, geff.write/read_to_memory, json, numpy.save, zarr); "
            "a contract pair would have to assume exactly the fidelity it is meant to establish (DESIGN.md section 7, C14)",
